@@ -574,6 +574,7 @@ void AspifTextOutput::endStep() {
 /////////////////////////////////////////////////////////////////////////////////////////
 std::string TheoryAtomStringBuilder::toString(const TheoryData& td, const TheoryAtom& a) {
 	res_.clear();
+	depth_ = 0;
 	add('&').term(td, td.getTerm(a.term())).add('{');
 	const char* sep = "";
 	for (TheoryElement::iterator eIt = a.begin(), eEnd = a.end(); eIt != eEnd; ++eIt, sep = "; ") {
@@ -609,6 +610,13 @@ TheoryAtomStringBuilder& TheoryAtomStringBuilder::term(const TheoryData& data, c
 		case Theory_t::Number: add(Potassco::toString(t.number())); break;
 		case Theory_t::Symbol: add(t.symbol()); break;
 		case Theory_t::Compound: {
+			// terms refer to their arguments by id: a term that (indirectly) contains itself would recurse forever
+			struct Nesting {
+				explicit Nesting(unsigned& d) : depth(d) { ++depth; }
+				~Nesting() { --depth; }
+				unsigned& depth;
+			} nesting(depth_);
+			POTASSCO_REQUIRE(depth_ <= 10000u, "theory term nested too deeply (cyclic term?)");
 			if (!t.isFunction() || function(data, t)) {
 				const char* parens = Potassco::toString(t.isTuple() ? t.tuple() : Potassco::Tuple_t::Paren);
 				const char* sep = "";
